@@ -298,8 +298,21 @@ def run(ctx):
                         out.add(int(val))
                     except ValueError:
                         pass
+            # a threshold may also be bound to a local first (`let widest = match info { 25 => 0xff, .. }; val <= widest`)
+            for st_ in blk["st"]:
+                if st_[0] == "a":
+                    for o in operands_of_rvalue(st_[2]):
+                        v = const_int(o)
+                        if v is not None:
+                            out.add(v)
         return out
-    cw, cr = int_consts(wm), int_consts(rl)
+    def consts_in_tree(fn):
+        out = set()
+        for g in tree(prog, [fn], stop=lambda i: not i.startswith(CA))[0]:
+            if g.id.startswith(CA):
+                out |= int_consts(g)
+        return out
+    cw, cr = consts_in_tree(wm), consts_in_tree(rl)
     for th in (23, 0xff, 0xffff, 0xffffffff):
         rep.check(th in cw and th in cr, "C12.R3", "cbor-width-threshold:%d" % th, "writer and reader both use %d" % th,
                   "width threshold %d: writer has it=%s, reader has it=%s" % (th, th in cw, th in cr), site=wm.loc())
